@@ -14,7 +14,8 @@ def env : Env :=
 
 def sets : Sets :=
   { scheme := safeOf Gen.pctSCHEME, userinfo := safeOf Gen.pctUSERINFO, path := safeOf Gen.pctPATH,
-    fragment := safeOf Gen.pctFRAGMENT }
+    fragment := safeOf Gen.pctFRAGMENT,
+    host := fun b => Gen.pctUNRESERVED.contains b || Gen.pctSUB_DELIMS.contains b }
 
 def renderUri (u : Uri) : String :=
   let cls := match u.cls with | some (n, _) => hexOrDash n | none => "URI"
